@@ -175,6 +175,68 @@ def _shapes(maxfrag, maxlen, maxmsg):
     return out
 
 
+def a_reconnect(lost, fire):
+    """connection 1 is lost (end of stream) inside a fragmented message; connect() again on the SAME object: the first message
+    of the new connection (two fragments, symbolic) is reassembled from its own fragments only"""
+    quiet_logging()
+    Proto, Payload, Closed = _excs()
+    from .c03 import HandshakeSock
+    import websocket._handshake as HS
+    from .common import FakeOs
+    stale = sx.sym_bytes("o", 2)
+    if lost == "between-fragments":
+        first = server_frame(0, 2, stale)
+    elif lost == "inside-frame":
+        first = bytes([0x82, 5]) + stale
+    else:
+        first = server_frame(0, 1, b"ab") + bytes([0x00, 4]) + stale
+    op = sx.sym_int("op", 8)
+    sx.assume(sx.Or(op == 1, op == 2))
+    p1, p2 = sx.sym_bytes("p", 2), sx.sym_bytes("q", 1)
+    second = sx.cat(sx.to_bytes_be(op, 1), bytes([2]), p1, bytes([0x80, 1]), p2)
+    real_os = HS.os._real if isinstance(HS.os, FakeOs) else HS.os
+    HS.os = FakeOs(real_os, lambda k: bytes(range(k)))
+    got = []
+    try:
+        ws = new_ws(None, fire_cont_frame=fire, skip_utf8_validation=True)
+        ws.connect("ws://example.test/a", socket=HandshakeSock(first, []))
+        try:
+            while True:
+                r = ws.recv_data_frame(True)
+                if not fire:
+                    sx.require(False, "incomplete message delivered", lost=lost)
+                    return
+        except Closed:
+            pass
+        if sx.choice("close-between", 2):
+            ws.close()
+        ws.connect("ws://example.test/a", socket=HandshakeSock(second, []))
+        try:
+            while True:
+                o, fr = ws.recv_data_frame(True)
+                got.append((o, fr.data, fr.fin))
+        except Closed:
+            pass
+        except (sx.Control, sx.ConcreteFailure, sx.ReplayMismatch):
+            raise
+        except Exception as e:
+            sx.require(False, "receive on the re-connected object raised %s" % type(e).__name__, lost=lost, fire=fire)
+            return
+    finally:
+        HS.os = real_os
+    if fire:
+        sx.require(len(got) == 2, "each fragment of the new connection's message is delivered once", got=len(got), lost=lost)
+        if len(got) == 2:
+            sx.require(sx.And(got[0][0] == op, got[0][1] == p1, got[0][2] == 0, got[1][0] == 0, got[1][1] == p2, got[1][2] == 1),
+                       "fragments of the new connection come as first-opcode then continuation, with their own payload and FIN", lost=lost)
+    else:
+        sx.require(len(got) == 1, "the new connection's fragmented message is delivered once", got=len(got), lost=lost)
+        if len(got) == 1:
+            sx.require(sx.And(got[0][0] == op, got[0][1] == sx.cat(p1, p2)),
+                       "message after connect() on the same object is the concatenation of ITS fragments with ITS opcode", lost=lost)
+    cover("re-assembled")
+
+
 def a_threads(t):
     """two receivers in recv(): a fragmented message is delivered intact to one of them (C12's interleaving query, shared)"""
     from .c12 import w_order_recv
@@ -225,6 +287,12 @@ def obligations(tier):
         Obligation("A-threads", a_threads, [dict(t=2)], bounds="2 receiver threads, a 2-fragment message each; ALL interleavings of read-lock, frame-lock, "
                    "transport-read and reassembler events (C12's query)", must_cover=["order-recv"], solver_timeout_ms=120000,
                    kernel=["WebSocket.recv (read lock)", "frame_buffer.recv_frame (frame lock)"]),
+        Obligation("A-reconnect", a_reconnect, [dict(lost=l, fire=f) for l in ("between-fragments", "inside-frame", "inside-second-fragment")
+                                                 for f in (False, True)],
+                   bounds="connection lost after a non-final fragment / inside a frame / inside a second fragment (2 symbolic stale bytes), "
+                          "connect() again on the same object with or without close() in between; new message of 2 fragments (2+1 symbolic "
+                          "bytes, opcode symbolic); per-fragment delivery off/on", must_cover=["re-assembled"],
+                   kernel=["WebSocket.connect", "WebSocket._recv", "frame_buffer", "continuous_frame"]),
         Obligation("A-step", a_step, step,
                    bounds="ONE step from an arbitrary valid reassembler state (idle / in message with accumulated 0,1,3 symbolic bytes, first "
                           "opcode symbolic) on an arbitrary data frame (opcode, FIN symbolic, payload 0..2 bytes): inductive, any number of fragments",
